@@ -22,12 +22,18 @@ LEAFTYPES = ["int", "str", "any", ["tuple", ["int", "int"]], ["union", ["int", "
              ["arr", "Float", "a"], ["arr", "Float", "a b"], ["arr", "Float", "*v a"], ["arr", "Int", "a"],
              ["union", [["arr", "Float", "a b"], ["arr", "Float", "b"]]], ["union", ["int", ["arr", "Float", "a"]]],
              ["tuple", [["arr", "Float", "a"], ["arr", "Float", "a b"]]], ["tuple", ["int", "str"]],
-             ["arr", "Float", "a", "any"], ["arr", "Shaped", "a b", "any"]]
+             ["arr", "Float", "a", "any"], ["arr", "Shaped", "a b", "any"], "tpair", "tpair"]
 
 
 def leaf_value(rng, lt):
     """mostly a value matching the leaf type lt, sometimes something else"""
     r = rng.random()
+    if lt == "tpair":
+        # a NamedTuple class with array-annotated fields (x: Float "a", y: Float "a b"): leaves are instances of that class
+        if r < .1:
+            return rng.choice([["i", 3], ["s", "x"], ["o"]])
+        a = SIZES["a"] if rng.random() < .85 else 7
+        return ["N", "TPair", [["a", [a], "float32"], ["a", [SIZES["a"] if rng.random() < .85 else 7, SIZES["b"] if rng.random() < .85 else 7], "float32" if rng.random() < .9 else "int32"]]]
     if r < .12:
         return rng.choice([["i", 3], ["s", "x"], ["o"], ["b", True], ["a", [2], "float32"], ["a", [2, 3], "int32"]])
     if lt == "int":
@@ -106,6 +112,11 @@ CORPUS = [
     S({"kind": "arr", "dim": "a", "shape": [2]}, tree_step(["arr", "Shaped", "a", "any"], ["t", [["K", [4], "float32"]]])),
     S(tree_step(["pytree", ["arr", "Float", "a", "any"], None], ["K", [3], "float32"])),
     S(tree_step(["arr", "Float", "a"], ["i", 3])), S(tree_step(["arr", "Float", "a"], ["a", [4], "float32"])),
+    # leaf type = NamedTuple class with array-annotated fields: the fields bind and compare axes like any other array leaf
+    S(tree_step("tpair", ["l", [["N", "TPair", [["a", [2], "float32"], ["a", [2, 3], "float32"]]], ["N", "TPair", [["a", [2], "float32"], ["a", [2, 3], "float32"]]]]]), {"kind": "arr", "dim": "b", "shape": [3]}),
+    S(tree_step("tpair", ["l", [["N", "TPair", [["a", [2], "float32"], ["a", [2, 3], "float32"]]], ["N", "TPair", [["a", [4], "float32"], ["a", [4, 3], "float32"]]]]])),
+    S(tree_step("tpair", ["t", [["N", "TPair", [["a", [2], "float32"], ["a", [5, 3], "float32"]]]]])),
+    S({"kind": "arr", "dim": "a", "shape": [9]}, tree_step(["pytree", "tpair", None], ["N", "TPair", [["a", [2], "float32"], ["a", [2, 3], "float32"]]])),
 ]
 
 
